@@ -14,8 +14,12 @@ FWS = ("torch_dataset", "torch_dataset_np_chunks")
 
 
 def all_configs():
-    return [dict(model=m, fw=f, wandb=w, ckpt=c, structured=s)
+    """64 configurations of the property's grid + 32 in-memory runs under (simulated) memory pressure, where the trainer
+    falls back to npz chunks on its own."""
+    base = [dict(model=m, fw=f, wandb=w, ckpt=c, structured=s, lowmem=False)
             for m in MODELS for f in FWS for w in (False, True) for c in (False, True) for s in (False, True)]
+    low = [dict(c, lowmem=True) for c in base if c["fw"] == "torch_dataset"]
+    return base + low
 
 
 def head_cfg(model):
